@@ -154,7 +154,7 @@ func (b *B) TypeDeclNode(t *Type, f *File) *Node {
 	}()
 	fld := func(name, typ string) {
 		k := &Node{Pre: []*Line{b.line(name + " " + typ)}}
-		if t.Mutable[name] {
+		if t.Mutable[strings.Split(name, ",")[0]] {
 			k.Doc = []string{" @mutable"}
 		}
 		n.Kids = append(n.Kids, k)
@@ -165,6 +165,8 @@ func (b *B) TypeDeclNode(t *Type, f *File) *Node {
 	fld("M", "map[string]int")
 	fld("A", "[4]int")
 	fld("MS", "[]int")
+	fld("P, Q", "int") // two names in one field declaration: one doc comment covers both
+	fld("In", "Inner"+t.Name)
 	n.Post = []*Line{b.line("}")}
 	return n
 }
@@ -337,6 +339,40 @@ func immTemplates() []Tmpl {
 		x := b.v()
 		return []*Node{b.stmt(x+" := "+q(t.Pkg)+env.List.Name+"()", &Use{Kind: UFuncRef, Fn: env.List, Call: true}),
 			b.stmt(x+"[0].F = 1", useT(UFieldAssign, t, "F"))}
+	}})
+	// two field names declared together share one @mutable doc comment
+	ts = append(ts, simple("mut-shared-decl-first", UFieldAssign, "P", func(x string) string { return x + ".P = 1" }, false, ""))
+	ts = append(ts, simple("mut-shared-decl-second", UFieldIncDec, "Q", func(x string) string { return x + ".Q++" }, false, ""))
+	// a struct-typed field: replacing it is a write to T, writing INTO it is a write to the (unannotated) inner type
+	ts = append(ts, simple("inner-struct-field-write", URead, "In", func(x string) string { return x + ".In.Z = 1" }, false, ""))
+	ts = append(ts, simple("inner-struct-field-inc", URead, "In", func(x string) string { return x + ".In.Z++" }, false, ""))
+	// parenthesised operand, address-of
+	ts = append(ts, simple("assign-paren-operand", UFieldAssign, "F", func(x string) string { return "(" + x + ").F = 1" }, false, ""))
+	ts = append(ts, Tmpl{Name: "assign-addr-of-value", Cat: IMM, Kind: "struct", NoImp: true, Make: func(b *B, t *Type, env *Env) []*Node {
+		x := b.v()
+		c, u := callNew(t, env)
+		return []*Node{b.stmt(x+" := *"+c, u), b.stmt("(&"+x+").F -= 1", useT(UFieldOpAssign, t, "F")), b.stmt("_ = " + x)}
+	}})
+	// init statements of if / switch / for, labeled statement
+	ts = append(ts, Tmpl{Name: "assign-in-if-init", Cat: IMM, Kind: "struct", NoImp: true, Make: func(b *B, t *Type, env *Env) []*Node {
+		x, a := acquire(b, t, env)
+		n := &Node{Pre: []*Line{b.line("if "+x+".F = 1; "+x+" != nil {", useT(UFieldAssign, t, "F"))}, Post: []*Line{b.line("}")}}
+		return []*Node{a, n}
+	}})
+	ts = append(ts, Tmpl{Name: "incdec-in-switch-init", Cat: IMM, Kind: "struct", NoImp: true, Make: func(b *B, t *Type, env *Env) []*Node {
+		x, a := acquire(b, t, env)
+		n := &Node{Pre: []*Line{b.line("switch "+x+".F++; {", useT(UFieldIncDec, t, "F"))}, Post: []*Line{b.line("}")}}
+		return []*Node{a, n}
+	}})
+	ts = append(ts, Tmpl{Name: "for-clauses", Cat: IMM, Kind: "struct", NoImp: true, Make: func(b *B, t *Type, env *Env) []*Node {
+		x, a := acquire(b, t, env)
+		n := &Node{Pre: []*Line{b.line("for "+x+".F = 0; "+x+".F < 1; "+x+".F += 2 {", useT(UFieldAssign, t, "F"), useT(UFieldOpAssign, t, "F"))}, Post: []*Line{b.line("}")}}
+		return []*Node{a, n}
+	}})
+	ts = append(ts, Tmpl{Name: "labeled-statement", Cat: IMM, Kind: "struct", NoImp: true, Make: func(b *B, t *Type, env *Env) []*Node {
+		x, a := acquire(b, t, env)
+		lbl := "L" + b.v()
+		return []*Node{a, b.stmt("goto " + lbl), b.stmt(lbl+": "+x+".F = 1", useT(UFieldAssign, t, "F"))}
 	}})
 	// statements that span several lines: the diagnostic is not on the statement's first line
 	ts = append(ts, Tmpl{Name: "assign-multi-line", Cat: IMM, Kind: "struct", NoImp: true, Make: func(b *B, t *Type, env *Env) []*Node {
